@@ -20,7 +20,7 @@ RULE = (
     "of the trailing-dims product of its parameter (the shard starts or ends mid-row). Every element of every parameter belongs to exactly one shard rank's "
     "serial oracle, so 'updated exactly once' is implied by bitwise equality on all shard ranks. Distinct = canonical JSON."
 )
-BOUNDS = "R*S <= 4 (quick) / 8 (thorough); numel <= 120 per parameter; <= 6 steps"
+BOUNDS = "R*S <= 4 (quick) / 8 (thorough); numel <= 120 per parameter (long-rows class: rows of 259-700 elements, up to 7000 elements); <= 6 steps"
 ASSUMPTIONS = ["flat-parameter sharding model: concatenation in parameter order, ceil(total/S) elements per rank (FSDP's padding lies after the last parameter)",
                "reference decomposition of C15", "simulator assumptions of C06"]
 NONTRIVIAL_FLOOR = 10
